@@ -34,7 +34,7 @@ func TestVerifC09(t *testing.T) {
 		s.Z.Put(vNS+"/"+pathMaintenance, string(b))
 	}
 	for _, action := range []string{"none", "move_master", "two_masters", "no_master", "stop_replication", "crash_replica"} {
-		for _, disturb := range []string{"none", "restart_manager", "restart_candidate", "zk_loss_manager", "zk_loss_all", "kill_manager", "zk_loss_unacked_candidates"} {
+		for _, disturb := range []string{"none", "restart_manager", "restart_candidate", "zk_loss_manager", "zk_loss_all", "kill_manager", "zk_loss_unacked_candidates", "leave_write_fails"} {
 			for _, disSS := range []bool{true, false} {
 				for _, pol := range []string{"flow", "eager"} {
 					k++
@@ -50,6 +50,7 @@ func TestVerifC09(t *testing.T) {
 					acked, leaveReq, deleted := false, false, false
 					sqlChanges, treeWrites := 0, 0
 					var leaveRows []map[string]any
+					rebuiltBy := map[string]bool{}
 					var changes []string
 					atEnter := map[string][2]any{} // instance -> (number of alive masters, the only one) when its activation started
 					res := vRun(t, &sc, vRunOpts{
@@ -78,7 +79,8 @@ func TestVerifC09(t *testing.T) {
 								case ev.K == "zk" && ev.At == pathMaintenance && ev.Res == "ok" && ev.Op == "Delete":
 									deleted = true
 									// ground truth in the leaving activation
-									row := map[string]any{"kind": "leave", "scn": id, "by": ev.By, "nmasters": -1, "onlymaster": "", "masterkey": s.lastMasterStr(), "activenonempty": len(s.lastActiveList) > 0}
+									row := map[string]any{"kind": "leave", "scn": id, "by": ev.By, "nmasters": -1, "onlymaster": "", "masterkey": s.lastMasterStr(), "activenonempty": len(s.lastActiveList) > 0,
+										"rebuilt": rebuiltBy[ev.By]}
 									// what the leaving activation observed when it started (its own repairs come later)
 									if e, ok := atEnter[ev.By]; ok {
 										row["nmasters"], row["onlymaster"] = e[0], e[1]
@@ -90,6 +92,12 @@ func TestVerifC09(t *testing.T) {
 								case ev.K == "zk" && ev.Mut && ev.By != "tool" && (ev.At == pathMasterNode || ev.At == pathActiveNodes) && acked && !leaveReq && !deleted:
 									treeWrites++
 									changes = append(changes, fmt.Sprintf("%s:%s@%s", ev.By, ev.Op, ev.At))
+								}
+								if ev.K == "app" && ev.Op == "Enter" {
+									rebuiltBy[ev.By] = false
+								}
+								if ev.K == "zk" && ev.At == pathActiveNodes && ev.Res == "ok" && (ev.Op == "SetData" || ev.Op == "Create") && ev.By != "tool" {
+									rebuiltBy[ev.By] = true // the list was published by this process in its current activation
 								}
 								if ev.K == "zk" && ev.At == pathActiveNodes && ev.Res == "ok" && (ev.Op == "SetData" || ev.Op == "Create") {
 									var v []string
@@ -163,6 +171,12 @@ func TestVerifC09(t *testing.T) {
 								}
 							case 10:
 								leaveReq = true
+								if disturb == "leave_write_fails" {
+									// the first two attempts to publish the rebuilt list fail: leaving must wait for a successful rebuild
+									if hk, ok := s.hook.(*vHook); ok {
+										hk.arm(&faultSpec{Chan: "zk", Stmt: "SetData", At: pathActiveNodes, Occ: 0, Times: 2, Kind: "zkfail"})
+									}
+								}
 								putMaint(s, "full", true)
 							}
 							return false
